@@ -89,11 +89,19 @@ func ParseFLine(buf []byte, offs int, pl *PFLine) (int, ErrorHdr) {
 	i := offs
 	switch pl.state {
 	case flInit:
-		if (len(buf) - i) < (len(sipVerSP) + 3 /*SP+CRLF*/ + 3 /* status */) {
-			// message too small
-			goto moreBytes
-		}
-		if l, match := bytescase.Prefix(sipVerSP, buf[i:]); match {
+		if avail := len(buf) - i; avail < (len(sipVerSP) + 3 /*SP+CRLF*/ + 3 /* status */) {
+			// too small for a status line: wait for more bytes only while
+			// what is available could still be the start of one, else
+			// it is a request (a complete message can be shorter than
+			// the shortest status line, e.g. "A b c\n\n")
+			n := avail
+			if n > len(sipVerSP) {
+				n = len(sipVerSP)
+			}
+			if _, match := bytescase.Prefix(buf[i:i+n], sipVerSP); match {
+				goto moreBytes
+			}
+		} else if l, match := bytescase.Prefix(sipVerSP, buf[i:]); match {
 			// matched sip_version SP   => is a reply, l points _after_ space
 			pl.Version.Set(i, i+l-1)
 			pl.state = flRplStatus
